@@ -185,7 +185,7 @@ func cmdCheck(args []string) int {
 	if *tier == "thorough" {
 		timeout = 120 * time.Second
 	}
-	cfg := &SolverCfg{Timeout: timeout, CacheDir: filepath.Join(*verif, ".cache"), OutDir: filepath.Join(*verif, ".obligations", prop), NoCache: *nocache, Workers: 6}
+	cfg := &SolverCfg{Timeout: timeout, CacheDir: filepath.Join(*verif, ".cache"), OutDir: filepath.Join(*verif, ".obligations", prop), NoCache: *nocache, Workers: 12}
 	os.RemoveAll(cfg.OutDir)
 	tSolve := time.Now()
 	solveAll(all, cfg)
